@@ -105,6 +105,7 @@ func c20Attempt() {
 	recvMode := []int{c20Prompt, c20Paused, c20Paused, c20Heavy, c20Absent, c20Late}[simrt.Draw(6)]
 	cancelMode := []int{c20Never, c20Never, c20Before, c20Race, c20AfterTime, c20AfterTime, c20AfterK, c20AfterK, c20AfterStep, c20Quiet}[simrt.Draw(10)]
 	takeFirst := simrt.Chance(1, 2)
+	deadlineDraw := simrt.Chance(1, 2)
 	raceStall := simrt.DrawRange(0, 5)
 	cancelSleep := simrt.DrawRange(0, 2*count+2) // in half rates
 	cancelStall := simrt.DrawRange(0, 40)
@@ -137,7 +138,17 @@ func c20Attempt() {
 	}
 
 	n0 := len(simrt.Tasks())
+	// the context ends either by its cancel function or (timed mode, half of the runs) by its deadline
+	byDeadline := cancelMode == c20AfterTime && deadlineDraw
 	ctx, cancel := context.WithCancel(context.Background())
+	if byDeadline {
+		d := time.Duration(cancelSleep) * half
+		if d <= 0 {
+			d = half
+		}
+		ctx, cancel = context.WithTimeout(context.Background(), d)
+	}
+	ctxDone := ctx.Done() // fetched here so that the step hook below polls it without touching the context's lock
 	st := &c20State{count: count, rate: rate}
 	doCancel := func() {
 		if st.cancelInv != 0 {
@@ -154,6 +165,20 @@ func c20Attempt() {
 		}
 	}
 	simrt.OnStep(func() {
+		if byDeadline && st.cancelInv == 0 {
+			select {
+			case <-ctxDone:
+				// the deadline passed: this is the instant of cancellation
+				st.cancelInv = simrt.Stamp()
+				st.cancelRet = simrt.Stamp()
+				st.lenAtCanc = 1
+				if st.ch != nil {
+					st.lenAtCanc = len(st.ch)
+				}
+				simrt.Fault("ctx_deadline")
+			default:
+			}
+		}
 		if st.ch != nil && (cap(st.ch) != 1 || len(st.ch) > 1) && !simrt.Failed() {
 			simrt.Failf("C20.buffer", "the returned channel has cap %d and %d values buffered", cap(st.ch), len(st.ch))
 		}
@@ -264,6 +289,9 @@ func c20Attempt() {
 
 	switch cancelMode {
 	case c20AfterTime:
+		if byDeadline {
+			break // the context expires by itself
+		}
 		go func() {
 			time.Sleep(time.Duration(cancelSleep) * half)
 			if st.inRecv {
